@@ -19,6 +19,7 @@ func init() {
 	zzsv.Register("ZZ_C16_Len", ZZ_C16_Len)
 	zzsv.Register("ZZ_C16_Iterate", ZZ_C16_Iterate)
 	zzsv.Register("ZZ_C16_LiteralContainers", ZZ_C16_LiteralContainers)
+	zzsv.Register("ZZ_C16_SameContainer", ZZ_C16_SameContainer)
 }
 
 // zzChars builds a string of n characters; each is a symbolic ASCII byte or
@@ -417,3 +418,8 @@ func ZZ_C16_LiteralContainers(sv *zzsv.T) {
 	zzDescribe(sv, "result", out, err)
 	sv.Assert("C16.litcontainers", err == nil && zzSame(sv, out, c.want(l)))
 }
+
+// ZZ_C16_SameContainer: several loops over the same container object at
+// the same time (nested, through a function, one after the other): each
+// visits each entry exactly once.
+func ZZ_C16_SameContainer(sv *zzsv.T) { zzSameIterable(sv, "C16.same") }
